@@ -5,6 +5,7 @@ import Driver.TimeSeries
 import Driver.EvalIndex
 import Driver.Reindex
 import Driver.Fortran
+import Driver.Expr
 /-
 Correspondence driver.  `.lake/build/bin/fsicdrv < requests > replies`  (or `lake env lean --run Main.lean`)
 Each request line is `<kind>\t<json>`; each reply is one line (`!<message>` on a malformed request).
@@ -19,7 +20,8 @@ def allHandlers : List (String × (Json → Except String String)) :=
   Drv.TimeSeries.handlers ++
   Drv.EvalIndex.handlers ++
   Drv.Reindex.handlers ++
-  Drv.Fortran.handlers
+  Drv.Fortran.handlers ++
+  Drv.Expr.handlers
 
 def dispatch (kind : String) (j : Json) : Except String String :=
   match allHandlers.lookup kind with
